@@ -307,3 +307,45 @@ def _m_mixed_delay(job, rec, k):
         if e.tgt.rsplit('/', 2)[0] == tn and any(so == g[1] and sv == g[2] and tuple(spec.nodes[sn].ops) == g[0] for g in groups):
             return True
     return False
+
+
+def _pernode_past_delays(spec):
+    """(op, delay constant) pairs of past() terms whose delay constant differs between structurally identical nodes"""
+    from . import expr as X_
+    out = []
+    for oname, o in spec.ops.items():
+        consts = set()
+
+        def walk(e):
+            if isinstance(e, tuple):
+                if e and e[0] == 'past' and isinstance(e[2], tuple) and e[2][0] == 'v':
+                    consts.add(e[2][1])
+                for a in e[1:]:
+                    if isinstance(a, (tuple, list)):
+                        for b in (a if isinstance(a, list) else [a]):
+                            walk(b)
+        for _, _, ex in o.eqs:
+            walk(ex)
+        for c in consts:
+            vals = {}
+            for n, ns in spec.nodes.items():
+                if oname in ns.ops:
+                    vals.setdefault(tuple(ns.ops), []).append((n, ns.overrides.get((oname, c), o.vars[c][1])))
+            for grp in vals.values():
+                if len({v for _, v in grp}) > 1:
+                    out.append((oname, c, grp))
+    return out
+
+
+@matcher('vectorized-past-per-node-delay')
+def _m_pernode_delay(job, rec, k):
+    spec = job.get('spec')
+    if spec is None or not job.get('vectorize') or rec.get('kind') != 'vector-field':
+        return False
+    node = rec.get('var', '').rsplit('/', 2)[0]
+    for oname, c, grp in _pernode_past_delays(spec):
+        first_val = grp[0][1]
+        # every node of the group whose delay differs from the FIRST node's delay computes with the first node's delay
+        if any(n == node and v != first_val for n, v in grp):
+            return True
+    return False
